@@ -478,7 +478,7 @@ class Steps(Task):              # one step per call of run; the result is finish
     def run(self) -> ContinuesData:
         d = self.get_data_object()
         done = sorted(p.name for p in d.dir.iterdir())
-        (d.dir / f"step{len(done) + 1}").write_text("x")
+        (d.dir / f"step{len(done) + 1}").write_text(str(self.get_config().name))
         if len(done) + 1 >= 3:
             d.finished()
         return d
@@ -494,7 +494,8 @@ class ResumableSteps(Suite):
     model = ''
 
     def gen(self, rng, tier):
-        return [dict(ask=a) for a in ('same_object', 'new_chain', 'new_process')]
+        return [dict(ask=a) for a in ('same_object', 'new_chain', 'new_process')] + \
+               [dict(ask='new_chain', names=n) for n in (['model.v1', 'model.v2'], ['run', 'run_2'], ['a.b.c', 'a.b.d'])]
 
     def run_impl(self, case):
         tmp = tempfile.mkdtemp(prefix='tcverif-c05r-')
@@ -510,6 +511,28 @@ class ResumableSteps(Suite):
             def chain():
                 from taskchain import Config
                 return Config(Path('data'), name='cfg', data={'tasks': [m.Steps]}).chain()
+
+            def named(n):
+                from taskchain import Config
+                return Config(Path('data'), name=n, data={'tasks': [m.Steps]}).chain(parameter_mode=False)['c05:steps']
+
+            def two_names():
+                # by config name: the first configuration is left unfinished after one step, the second one is finished,
+                # then the first one goes on
+                a, b = case['names']
+                content = lambda p: {q.name: q.read_text() for q in sorted(Path(p).iterdir())}
+                named(a).value
+                for _ in range(3):
+                    vb = named(b).value
+                rb = dict(has=bool(named(b).has_data), steps=content(vb))
+                calls = 0
+                while not named(a).has_data and calls < 5:
+                    va = named(a).value
+                    calls += 1
+                return dict(second=rb, first=dict(calls=calls, steps=content(va), has=bool(named(a).has_data)),
+                            second_after=content(named(b).value))
+            if case.get('names'):
+                return in_child(two_names)
 
             def scenario():
                 out = []
@@ -535,6 +558,18 @@ class ResumableSteps(Suite):
             return f'unexpected exception {obs["unexpected_exception"]}: {obs["text"]}'
         if 'child_error' in obs:
             return f'{case}: {obs["child_error"]}'
+        if case.get('names'):
+            a, b = case['names']
+            wb, wa = {f'step{i}': b for i in (1, 2, 3)}, {f'step{i}': a for i in (1, 2, 3)}
+            if not obs['second']['has'] or obs['second']['steps'] != wb:
+                return (f'{case}: {b} was given three calls of run while {a} was unfinished; its result holds {obs["second"]}, '
+                        f'its own three steps are {wb}')
+            if obs['first'] != dict(calls=2, steps=wa, has=True):
+                return (f'{case}: {a} had done one step before {b} was computed; going on it took {obs["first"]["calls"]} more calls and '
+                        f'holds {obs["first"]["steps"]}; expected 2 calls and {wa}')
+            if obs['second_after'] != wb:
+                return f'{case}: finishing {a} changed the result of {b}: {obs["second_after"]}'
+            return None
         for s in obs['steps']:
             want = s['step'] == 3
             if s['has'] != want:
@@ -551,9 +586,119 @@ class ResumableSteps(Suite):
         return repr(case)
 
 
+H5_SRC = '''
+import numpy as np
+from taskchain import Task
+from taskchain.data import H5Data
+
+FAIL_AFTER_BATCH = [None]      # the batch after whose rows reached the file - and before they are committed - run fails, once
+BATCHES = 3
+ALWAYS_POSITION = [True]
+
+def batch(b):
+    return np.array([[b, 1], [b, 2]], dtype="f4")
+
+class Rows(Task):               # appends batches of rows; the number of committed rows is kept beside the data file
+    class Meta:
+        task_group = "c05"
+    def run(self) -> H5Data:
+        d = self.get_data_object()
+        progress = d.dir / "committed.txt"
+        committed = int(progress.read_text()) if progress.exists() else 0
+        position = committed
+        for b in range(committed // 2, BATCHES):
+            with d.data_file() as f:
+                ds = d.dataset("rows", f, maxshape=(None, 2))
+                d.append_data(ds, batch(b), dataset_len=position)
+            if not ALWAYS_POSITION[0]:
+                position = None     # only the first append of an attempt names the position, later ones go to the end
+            else:
+                position = committed + 2
+            if FAIL_AFTER_BATCH[0] == b:
+                FAIL_AFTER_BATCH[0] = None
+                raise RuntimeError("killed before the commit of batch %d" % b)
+            committed += 2
+            progress.write_text(str(committed))
+        d.finished()
+        return d
+'''
+
+
+class ResumableRows(Suite):
+    """a resumable H5Data task that appends batches of rows and commits its progress after each batch, killed once
+    after the rows of some batch reached the file and before their commit (also the very first batch), then asked
+    again by a new chain: the finished dataset holds exactly the rows of the batches, once, and a new process loads the
+    same.  Runtime check only."""
+    name = 'resumable_rows'
+    model = ''
+
+    def gen(self, rng, tier):
+        return [dict(fail=b, explicit_len=e) for b in (None, 0, 1, 2) for e in (True, False)]
+
+    def run_impl(self, case):
+        tmp = tempfile.mkdtemp(prefix='tcverif-c05h-')
+        old = os.getcwd()
+        try:
+            os.chdir(tmp)
+            name = 'tcv_dyn_c05h'
+            m = types.ModuleType(name)
+            sys.modules[name] = m
+            exec(compile(H5_SRC, name, 'exec'), m.__dict__)
+            m.Rows.__module__ = name
+
+            def task():
+                from taskchain import Config
+                return Config(Path('data'), name='cfg', data={'tasks': [m.Rows]}).chain()['c05:rows']
+
+            def rows(t):
+                import h5py
+                with h5py.File(t.value / 'data.h5', 'r') as f:
+                    return f['rows'][:].tolist()
+
+            def scenario():
+                m.FAIL_AFTER_BATCH[0] = case['fail']
+                m.ALWAYS_POSITION[0] = case['explicit_len']
+                failed = False
+                try:
+                    task().value
+                except RuntimeError:
+                    failed = True
+                mid = bool(task().has_data)
+                t = task()
+                return dict(failed=failed, has_after_failure=mid, rows=rows(t), has=bool(t.has_data),
+                            reloaded=in_child(lambda: dict(rows=rows(task()))))
+            return in_child(scenario)
+        finally:
+            os.chdir(old)
+            sys.modules.pop('tcv_dyn_c05h', None)
+            shutil.rmtree(tmp, ignore_errors=True)
+
+    def oracle(self, case, obs):
+        if 'unexpected_exception' in obs:
+            return f'unexpected exception {obs["unexpected_exception"]}: {obs["text"]}'
+        if 'child_error' in obs:
+            return f'{case}: {obs["child_error"]}'
+        want = [[float(b), float(k)] for b in range(3) for k in (1, 2)]
+        if obs['failed'] != (case['fail'] is not None):
+            return f'{case}: the harness did not kill the attempt as planned (failed={obs["failed"]})'
+        if obs['failed'] and obs['has_after_failure']:
+            return f'{case}: the killed attempt left a result behind (has_data True before the task was finished)'
+        if obs['rows'] != want or not obs['has']:
+            return f'{case}: the finished dataset holds {obs["rows"]}; the batches are {want}'
+        if obs['reloaded'].get('rows') != want:
+            return f'{case}: a new process loads {obs["reloaded"]}; the batches are {want}'
+        return None
+
+    def nontrivial(self, case, obs):
+        return True
+
+    def key(self, case):
+        return repr(case)
+
+
 class C05(Prop):
     pid = 'C05'
-    suites = [Traces(), Faults(), ResumableSteps()]
+    suites = [Traces(), Faults(), ResumableSteps(), ResumableRows()]
     assumptions = ['rename/replace within one directory is atomic and a file is partial until it is closed (the operating system, '
                    'described by Crash.apply)',
                    'the theorems are about the operation sequences of Crash.trace_of; publication_traces compares them with the '
